@@ -123,6 +123,9 @@ def build_driver():
             open(stamp, "w").write(str(time.time()))
 
 
+HARNESS_NOTES = []
+
+
 def build_harness(profile="debug"):
     """Always invokes cargo, so the harness is rebuilt from /repo's current working tree."""
     with Lock("cargo"):
@@ -142,7 +145,17 @@ def build_harness(profile="debug"):
                 open(lock_dst, "wb").write(open(lock_src, "rb").read())
                 rc, log = run(cmd, cwd=HARNESS_SRC, timeout=1600)
         if rc != 0:
-            raise BuildError("cargo build (%s) of the harness against /repo" % profile, log)
+            # the tree may have renamed or reshaped the error variants the harness names (feature `names`): classify errors
+            # without naming any.  Cases whose answer is one of C05's named kinds will then differ from the model and be
+            # reported by the checks that have such cases; every other check still runs.
+            rc2, log2 = run(cmd + ["--no-default-features"], cwd=HARNESS_SRC, timeout=1600)
+            if rc2 == 0:
+                note = ("harness built WITHOUT the `names` feature: the pinned names of the error variants do not compile against "
+                        "this tree (%s)" % " ".join(l.strip() for l in log.split("\n") if l.startswith("error"))[:300])
+                if note not in HARNESS_NOTES:
+                    HARNESS_NOTES.append(note)
+            else:
+                raise BuildError("cargo build (%s) of the harness against /repo" % profile, log)
         return os.path.join(TARGET, profile, "cf-harness")
 
 
@@ -304,6 +317,31 @@ def norm_out(case, out):
     # C15: "a different contig or strand is an error", "constructing a pair from unequal lengths is refused" - which variant
     # carries the refusal is not stated (the harmless refactor C15-t3 introduces its own variants)
     cmd = case.split(" ", 1)[0]
+    if out is not None and out.startswith("ok ") and cmd in ("build", "threads") and "some[" in out:
+        # C11 fixes the order of the pairs of one answer up to ties: "ordered by non-decreasing forward start of their reference
+        # interval".  Pairs with the same forward start may come in any (deterministic) order - the pinned code has them in file
+        # order - so within a run of equal forward starts the comparison with the model ignores the order.  A run is a run of
+        # CONSECUTIVE pairs: an answer that is not sorted stays different from the model's (and the C11 oracle reports it).
+        def canon(tok):
+            if not (tok.startswith("some[") and tok.endswith("]")):
+                return tok
+            pairs = tok[5:-1].split(",")
+
+            def fwd(p):
+                r = p.split(">")[0].split(":")
+                return min(int(r[2]), int(r[3]))
+            res, run = [], []
+            for p in pairs:
+                if run and fwd(p) != fwd(run[-1]):
+                    res += sorted(run)
+                    run = []
+                run.append(p)
+            res += sorted(run)
+            return "some[" + ",".join(res) + "]"
+        try:
+            return " ".join(canon(t) for t in out.split(" "))
+        except (ValueError, IndexError):
+            return out
     if out is not None and out.startswith("err ") and cmd in ("clamp", "plift", "ptry"):
         return "refused" if cmd == "clamp" else "err"
     # clamp to an interval that does not meet the reference interval is outside C15's quantifier ("any interval ... that meets
